@@ -2,18 +2,24 @@
 
 * single_ok (mode A): templates whose output is one non-string node (plain print, inside if / for /
   block / macro / set / with / include / extends, conditional expression, subscript, call) get a
-  symbolic int, a symbolic bool, a list / tuple / dict of symbolic ints, None, floats, bytes, opaque
-  objects (one whose ``__str__`` looks like a literal), a generator, a class, an undefined — the
-  result must be that value itself (``is`` for objects, value and type for ints / bools).
+  symbolic int, a symbolic bool, a list / tuple / dict / nested container of symbolic ints; the
+  result must be that value itself (``is`` for containers, value and type for ints / bools).
+* single_obj_ok (mode B): the same templates with concrete objects: None, floats, nan, bytes, sets,
+  opaque objects (one whose ``__str__`` looks like a literal), a generator, a class, a function,
+  an undefined, falsy values (0, False, [], ()), an exception instance ... — ``is`` identity.
 * text_ok (mode B): a table of output texts (ints, floats, complex, prefixed strings, keyword
-  constants with surrounding whitespace, tuples, nested containers, names, invalid syntax …) is
+  constants with surrounding whitespace, tuples, nested containers, names, invalid syntax ...) is
   produced by differently shaped multi-node templates (one string node, two / three nodes, template
   data + node, constant-folded node, loop over characters from a list or a generator, typed pieces,
-  include, extends) through every entry point; the result must be the literal value of the text iff
+  include, extends) through the entry points (render / render_async / generate / generate_async on
+  a sync and an async native environment); the result must be the literal value of the text iff
   Python's parser + ``ast.literal_eval`` accept the text, else the text.
-* pieces_ok (mode B): all sequences of <= 3 typed pieces from a table, as 1..3 nodes.
+* pieces_ok (mode B): all sequences of <= 3 typed pieces from a table, as 1..3 nodes or a loop.
 * fresh_ok (mode B): render, mutate the returned container, render again (same / other template,
-  same / other entry point): the second result is again the literal value of the text.
+  same / other entry point), mutate, render a third time: every result is again the literal value
+  of the text (results of different renders are independent objects).
+
+VERIF_INCLUDE_KNOWN=1 drops the exclusions of the SUSPECTED_DEFECTS inputs (the check then reports them).
 """
 import ast
 import os
@@ -164,67 +170,44 @@ def _ident(v):
     return v
 
 
-KINDS = ["int", "bool", "none", "list", "tuple", "dict", "set", "float", "nan", "bytes", "opaque", "litstr",
-         "generator", "class", "function", "undefined", "nested", "complex", "ellipsis"]
+SYM_KINDS = ["int", "bool", "list", "tuple", "dict", "nested"]          # built from symbolic data (mode A)
+OBJ_KINDS = ["none", "set", "float", "nan", "bytes", "opaque", "litstr", "generator", "class", "function", "undefined", "complex",
+             "ellipsis", "emptylist", "emptytuple", "zero", "false", "frozenset", "range", "exception"]   # concrete objects (mode B)
 S_ENTRIES = ["render", "render_async", "generate", "generate_async", "direct:list", "direct:gen"]
 
 
-def single_ok(kind: int, entry: int, n: int, b: bool, xs: List[int]) -> bool:
-    """
-    pre: 0 <= kind < len(KINDS) and 0 <= entry < len(S_ENTRIES) and len(xs) <= 3
-    post: _
-    """
-    k = KINDS[pick(kind, len(KINDS))]
-    en = S_ENTRIES[pick(entry, len(S_ENTRIES))]
-    src = SINGLE_FORMS[P.get("form", 0)]
+def _value(k, n, b, xs):
+    """-> (value, check(result)) for a kind of non-string value."""
     copy = [v for v in xs]
-    check = None
     if k == "int":
-        x = n
-        check = lambda r: isinstance(r, int) and not isinstance(r, (bool, str)) and r == n  # noqa: E731
-    elif k == "bool":
-        x = b
-        check = lambda r: isinstance(r, bool) and r == b  # noqa: E731
-    elif k == "none":
-        x = None
-    elif k == "list":
+        return n, lambda r: isinstance(r, int) and not isinstance(r, (bool, str)) and r == n
+    if k == "bool":
+        return b, lambda r: isinstance(r, bool) and r == b
+    if k == "list":
         x = [v for v in xs]
-        check = lambda r: r is x and r == copy  # noqa: E731
-    elif k == "tuple":
+        return x, lambda r: r is x and r == copy
+    if k == "tuple":
         x = (n, b)
-        check = lambda r: r is x and r[0] == n and r[1] == b  # noqa: E731
-    elif k == "dict":
+        return x, lambda r: r is x and r[0] == n and r[1] == b
+    if k == "dict":
         x = {"k": n, "xs": [v for v in xs]}
-        check = lambda r: r is x and len(r) == 2 and r["k"] == n and r["xs"] == copy  # noqa: E731
-    elif k == "set":
-        x = {1, 2}
-    elif k == "float":
-        x = 1.5
-    elif k == "nan":
-        x = float("nan")
-    elif k == "bytes":
-        x = b"[1]"
-    elif k == "opaque":
-        x = Opaque()
-    elif k == "litstr":
-        x = LitStr()
-    elif k == "generator":
-        x = _gen()
-    elif k == "class":
-        x = bool
-    elif k == "function":
-        x = _ident
-    elif k == "nested":
+        return x, lambda r: r is x and len(r) == 2 and r["k"] == n and r["xs"] == copy
+    if k == "nested":
         x = [[n], {"b": b}]
-        check = lambda r: r is x and r[0] == [n] and r[1] == {"b": b}  # noqa: E731
-    elif k == "complex":
-        x = 1 + 2j
-    elif k == "ellipsis":
-        x = ...
-    else:
-        x = Undefined(name="x")
-    if check is None:
-        check = lambda r: r is x  # noqa: E731
+        return x, lambda r: r is x and r[0] == [n] and r[1] == {"b": b}
+    x = {
+        "none": None, "set": {1, 2}, "float": 1.5, "nan": float("nan"), "bytes": b"[1]", "opaque": Opaque(), "litstr": LitStr(),
+        "generator": _gen(), "class": bool, "function": _ident, "undefined": Undefined(name="x"), "complex": 1 + 2j, "ellipsis": ...,
+        "emptylist": [], "emptytuple": (), "zero": 0, "false": False, "frozenset": frozenset([1]), "range": range(3),
+        "exception": ValueError("[1]"),
+    }[k]
+    if k in ("zero", "false"):
+        return x, lambda r: type(r) is type(x) and r == x
+    return x, lambda r: r is x
+
+
+def _single(k, en, src, n, b, xs):
+    x, check = _value(k, n, b, xs)
     if en == "direct:list":
         r = native_concat([x])
     elif en == "direct:gen":
@@ -238,6 +221,32 @@ def single_ok(kind: int, entry: int, n: int, b: bool, xs: List[int]) -> bool:
         ctx["x"] = x
         r = _call(en, src, ctx)
     return bool(check(r))
+
+
+def NSE():
+    return P.get("ne", len(S_ENTRIES))
+
+
+def single_ok(kind: int, entry: int, n: int, b: bool, xs: List[int]) -> bool:
+    """
+    pre: 0 <= kind < len(SYM_KINDS) and 0 <= entry < NSE() and len(xs) <= 3
+    post: _
+    """
+    k = SYM_KINDS[pick(kind, len(SYM_KINDS))]
+    en = S_ENTRIES[pick(entry, NSE())]
+    return _single(k, en, SINGLE_FORMS[P.get("form", 0)], n, b, xs)
+
+
+def single_obj_ok(form: int, kind: int, entry: int) -> bool:
+    """
+    pre: 0 <= form < P["nf"] and 0 <= kind < len(OBJ_KINDS) and 0 <= entry < len(S_ENTRIES)
+    post: _
+    """
+    src = SINGLE_FORMS[P["flo"] + pick(form, P["nf"])]
+    k = OBJ_KINDS[pick(kind, len(OBJ_KINDS))]
+    en = S_ENTRIES[pick(entry, len(S_ENTRIES))]
+    with NoTracing():
+        return _single(k, en, src, 0, False, [])
 
 
 # ---------------------------------------------------------------- mode B: tables of output texts
@@ -382,12 +391,25 @@ def NT():
     return P.get("n", len(TEXTS))
 
 
-def known_text(ti, entry):
+# (shape, entry) pairs.  quick: every shape through render and render_async, the other entry points with three shapes;
+# thorough: the full product.
+_FULL = [(s, e) for e in range(len(ENTRIES)) for s in range(len(SHAPES))]
+_QUICK = [(s, e) for (s, e) in _FULL
+          if ENTRIES[e] in ("render", "render_async") or SHAPES[s] in ("one", "two@mid", "loop-gen")]
+
+
+def COMBOS():
+    return _FULL if P.get("full") else _QUICK
+
+
+def known_text(ti, combo):
     """Inputs excluded because the unchanged tree violates the property for them (SUSPECTED_DEFECTS)."""
     if INCLUDE_KNOWN:
         return False
-    if entry == E_RENDER_AT_ASYNC:
-        return True
+    cs = COMBOS()
+    for i in range(len(cs)):
+        if cs[i][1] == E_RENDER_AT_ASYNC and combo == i:
+            return True
     t = P.get("lo", 0) + ti
     for d in DEFECT_TI:
         if t == d:
@@ -395,51 +417,65 @@ def known_text(ti, entry):
     return False
 
 
-def text_ok(ti: int, shape: int, entry: int) -> bool:
+def text_ok(ti: int, combo: int) -> bool:
     """
-    pre: 0 <= ti < NT() and 0 <= shape < len(SHAPES) and 0 <= entry < len(ENTRIES) and not known_text(ti, entry)
+    pre: 0 <= ti < NT() and 0 <= combo < len(COMBOS()) and not known_text(ti, combo)
     post: _
     """
     text = TEXTS[P.get("lo", 0) + pick(ti, NT())]
-    sh = SHAPES[pick(shape, len(SHAPES))]
-    en = ENTRIES[pick(entry, len(ENTRIES))]
+    sh, en = COMBOS()[pick(combo, len(COMBOS()))]
     with NoTracing():
-        return _text_native(text, sh, en)
+        return _text_native(text, SHAPES[sh], ENTRIES[en])
 
 
 # ---------------------------------------------------------------- mode B: sequences of typed pieces
 PIECES = [1, 0, -2, 1.5, True, None, [], "", " ", "'", "b'", "[", "]", ", ", "a", "{", "}", ": ", "(", ")", "#", "\n", "-", "e", "_", "r", "\\", "0x",
           "j", "+", ".", (1,), {"k": 1}, "u", "\t", "\""]
-NPQ = 18   # quick tier uses the first NPQ pieces
 P_ENTRIES = ["render", "render_async", "direct:list", "direct:gen", "generate", "generate_async"]
 P_SRC = ["", "{{ a }}", "{{ a }}{{ b }}", "{{ a }}{{ b }}{{ c }}"]
+# (entry, as a loop over a generator instead of separate print nodes)
+_PFULL = [(e, lp) for e in range(len(P_ENTRIES)) for lp in (False, True) if not (lp and P_ENTRIES[e].startswith("direct"))]
+_PQUICK = [(0, False), (1, True), (2, False), (3, False), (4, True)]
+# the quick tier uses these pieces
+PQ = [PIECES.index(v) for v in (1, True, None, " ", "'", "[", "]", ", ", "{", "}")] + [PIECES.index([])]
 # exactly the piece sequences for which the unchanged tree lets TypeError escape (SUSPECTED_DEFECTS 1): '{' [] '}' and '{' {'k': 1} '}'
 DEFECT_PIECES = [[PIECES.index("{"), PIECES.index([]), PIECES.index("}")], [PIECES.index("{"), PIECES.index({"k": 1}), PIECES.index("}")]]
 
 
-def NP():
-    return P.get("np", NPQ)
+PT = list(range(22)) + [PIECES.index((1,)), PIECES.index({"k": 1})]      # thorough tier
 
 
-def known_pieces(ps):
+def PSET():
+    return PT if P.get("full") else PQ
+
+
+def PCOMBOS():
+    return _PFULL if P.get("full") else _PQUICK
+
+
+def known_pieces(n, p0, p1, p2):
     if INCLUDE_KNOWN:
         return False
+    ps = PSET()
     for d in DEFECT_PIECES:
-        if len(ps) == 3 and ps[0] == d[0] and ps[1] == d[1] and ps[2] == d[2]:
-            return True
+        if d[0] in ps and d[1] in ps and d[2] in ps:
+            if n == 3 and p0 == ps.index(d[0]) and p1 == ps.index(d[1]) and p2 == ps.index(d[2]):
+                return True
     return False
 
 
-def pieces_ok(ps: List[int], entry: int, loop: bool) -> bool:
+def pieces_ok(n: int, p1: int, p2: int, combo: int) -> bool:
     """
-    pre: 1 <= len(ps) <= 3 and all(0 <= p < NP() for p in ps) and ps[0] == P.get("first", 0) and 0 <= entry < len(P_ENTRIES) and not known_pieces(ps)
+    pre: 1 <= n <= 3 and 0 <= p1 < len(PSET()) and 0 <= p2 < len(PSET()) and (n >= 2 or p1 == 0) and (n >= 3 or p2 == 0)
+    pre: 0 <= combo < len(PCOMBOS()) and not known_pieces(n, P.get("first", 0), p1, p2)
     post: _
     """
-    idx = [pick(p, NP()) for p in ps]
-    en = P_ENTRIES[pick(entry, len(P_ENTRIES))]
-    lp = pickb(loop)
+    ps = PSET()
+    ln = pick(n - 1, 3) + 1
+    idx = [ps[P.get("first", 0)], ps[pick(p1, len(ps))], ps[pick(p2, len(ps))]][:ln]
+    e, lp = PCOMBOS()[pick(combo, len(PCOMBOS()))]
     with NoTracing():
-        return _pieces_native(idx, en, lp)
+        return _pieces_native(idx, P_ENTRIES[e], lp)
 
 
 def _pieces_native(idx, en, lp):
@@ -486,13 +522,13 @@ def _mutate(v, deep):
     return False
 
 
-def fresh_ok(ti: int, mut: int, first: int, second: int) -> bool:
+def fresh_ok(ti: int, first: int, second: int) -> bool:
     """
-    pre: 0 <= ti < len(MUT_TEXTS) and 0 <= mut <= 2 and 0 <= first < len(RUNS) and 0 <= second < len(RUNS)
+    pre: 0 <= ti < len(MUT_TEXTS) and 0 <= first < len(RUNS) and 0 <= second < len(RUNS)
     post: _
     """
     text = MUT_TEXTS[pick(ti, len(MUT_TEXTS))]
-    m = pick(mut, 3)
+    m = P.get("mut", 1)
     f = RUNS[pick(first, len(RUNS))]
     s = RUNS[pick(second, len(RUNS))]
     with NoTracing():
@@ -526,30 +562,50 @@ def setup(param):
         _t(AENV, src)
 
 
+def _text_witnesses(lo, n, combos):
+    out = []
+    for ti, c in ((0, 0), (n - 1, 2), (min(5, n - 1), 10), (min(3, n - 1), 17), (min(7, n - 1), len(combos) - 1), (n // 2, 4)):
+        while c >= 0 and combos[c][1] == E_RENDER_AT_ASYNC:
+            c -= 1
+        if lo + ti not in DEFECT_TI and [ti, c] not in out:
+            out.append([ti, c])
+    return out[:5]
+
+
 def conditions(tier, seed):
     th = tier == "thorough"
-    to = 300 if th else 45
+    to = 300 if th else 60
     out = []
     for i, src in enumerate(SINGLE_FORMS):
-        out.append(Cond(f"single[{src}]", "single_ok", mode="A", param={"form": i}, timeout=to,
-                        witnesses=[[0, 0, 41, True, [1, 2]], [3, 1, -5, False, [7]], [11, 2, 0, True, []], [1, 3, 2, False, [0, 0, 9]],
-                                   [15, 0, 1, True, []], [5, 4, 3, True, [4]], [16, 5, 2, False, [1]]],
-                        bounds=f"template {src!r}; x one of {len(KINDS)} kinds of non-string value built from any int n, any bool b, any list of <= 3 ints; "
-                               f"entry points {S_ENTRIES}"))
+        ne = len(S_ENTRIES) if i == 0 else 4     # the two direct native_concat calls do not depend on the template
+        out.append(Cond(f"single[{src}]", "single_ok", mode="A", param={"form": i, "ne": ne}, timeout=to,
+                        witnesses=[[0, 0, 41, True, [1, 2]], [3, 1, -5, False, [7]], [2, 2, 0, True, []], [1, 3, 2, False, [0, 0, 9]],
+                                   [4, 0, 1, True, [3]], [5, ne - 1, 3, True, [4]]],
+                        bounds=f"template {src!r}; x one of {SYM_KINDS} built from any int n, any bool b, any list of <= 3 ints; "
+                               f"entry points {S_ENTRIES[:ne]}"))
+    half = len(SINGLE_FORMS) // 2
+    for flo, nf in ((0, half), (half, len(SINGLE_FORMS) - half)):
+        out.append(Cond(f"single-objects[forms {flo}..{flo + nf - 1}]", "single_obj_ok", mode="B", param={"flo": flo, "nf": nf}, timeout=to,
+                        witnesses=[[0, 0, 0], [1, 5, 1], [nf - 1, 10, 2], [3, 7, 3], [2, 6, 4], [4, 19, 5]],
+                        bounds=f"templates {SINGLE_FORMS[flo:flo + nf]!r} x concrete non-string values {OBJ_KINDS} x entry points {S_ENTRIES}"))
+    combos = _FULL if th else _QUICK
     chunk = 16
     for lo in range(0, len(TEXTS), chunk):
         n = min(chunk, len(TEXTS) - lo)
-        out.append(Cond(f"text[{lo}..{lo + n - 1}]", "text_ok", mode="B", param={"lo": lo, "n": n}, timeout=to * 2 if not th else to,
-                        witnesses=[[0, 0, 0], [n - 1, 2, 1], [min(5, n - 1), 10, 2], [min(3, n - 1), 5, 3], [min(7, n - 1), 7, 4]],
-                        bounds=f"texts {lo}..{lo + n - 1} of the {len(TEXTS)}-entry table x {len(SHAPES)} template shapes {SHAPES} x entry points {ENTRIES} "
-                               "(minus the inputs listed in SUSPECTED_DEFECTS)"))
-    np_ = len(PIECES) if th else NPQ
-    for first in range(np_):
-        out.append(Cond(f"pieces[first={PIECES[first]!r}]", "pieces_ok", mode="B", param={"first": first, "np": np_}, timeout=to,
-                        witnesses=[[[first], 0, False], [[first, 0, 12], 1, True], [[first, 9, 9], 2, False], [[first, 4], 5, True]],
-                        bounds=f"all sequences of 1..3 pieces from the first {np_} of {PIECES!r} starting with piece {first}, as 1..3 print nodes or a loop; "
-                               f"entry points {P_ENTRIES}"))
-    out.append(Cond("fresh[render, mutate, render again]", "fresh_ok", mode="B", param={}, timeout=to * 2 if not th else to,
-                    witnesses=[[0, 1, 0, 0], [3, 2, 1, 2], [5, 2, 5, 4], [1, 1, 2, 7], [2, 0, 3, 3], [8, 2, 6, 1]],
-                    bounds=f"texts {MUT_TEXTS!r} x (no mutation / outermost / innermost container mutated) x first and second run from {RUNS!r}; three renders"))
+        out.append(Cond(f"text[{lo}..{lo + n - 1}]", "text_ok", mode="B", param={"lo": lo, "n": n, "full": th}, timeout=to,
+                        witnesses=_text_witnesses(lo, n, combos),
+                        bounds=f"texts {lo}..{lo + n - 1} of the {len(TEXTS)}-entry table x {len(combos)} (template shape, entry point) pairs from "
+                               f"shapes {SHAPES} and entry points {ENTRIES} (minus the inputs listed in SUSPECTED_DEFECTS)"))
+    pset = PT if th else PQ
+    pc = _PFULL if th else _PQUICK
+    for first in range(len(pset)):
+        out.append(Cond(f"pieces[first={PIECES[pset[first]]!r}]", "pieces_ok", mode="B", param={"first": first, "full": th}, timeout=to,
+                        witnesses=[[1, 0, 0, 0], [3, 0, 6, 1], [3, 4, 4, 2], [2, 3, 0, len(pc) - 1], [3, 5, 1, 3]],
+                        bounds=f"all sequences of 1..3 pieces from {[PIECES[i] for i in pset]!r} starting with {PIECES[pset[first]]!r}, "
+                               f"as (entry point, loop) from {[(P_ENTRIES[e], lp) for e, lp in pc]!r} (minus the inputs listed in SUSPECTED_DEFECTS)"))
+    for m in (0, 1, 2):
+        out.append(Cond(f"fresh[render, {['no mutation', 'mutate outermost', 'mutate innermost'][m]}, render again]", "fresh_ok", mode="B",
+                        param={"mut": m}, timeout=to,
+                        witnesses=[[0, 0, 0], [3, 1, 2], [5, 5, 4], [1, 2, 7], [2, 3, 3], [8, 6, 1]],
+                        bounds=f"texts {MUT_TEXTS!r} x first and second run from {RUNS!r}; three renders, returned containers mutated in between"))
     return out
